@@ -287,7 +287,9 @@ func (gb *gcpBalancer) UpdateClientConnState(ccs balancer.ClientConnState) error
 	}
 
 	if len(gb.scRefs) == 0 {
-		gb.newSubConn()
+		// The pool is empty (nothing could be created so far or every SubConn was
+		// shut down). gb.mu is already held here, so newSubConn() must not be used.
+		gb.enforceMinSize()
 		return nil
 	}
 
